@@ -29,7 +29,20 @@
    The result cache keeps at most 1000 entries ([evict]).  Console output (silent=False), the results log
    (get_results_log) and the per-operation timeout_seconds are not modelled: the correspondence check runs
    them as configurations / operations that must leave every observation below unchanged.  Recording
-   on_block / on_permit callbacks are observed through their call counts ([obs_row]). *)
+   on_block / on_permit callbacks are observed through their call counts ([obs_row]).
+
+   OVERLAPPING REQUESTS ([cop], [cstep], [ctrace]; second half of the file).  run() holds the lock only inside the
+   breaker / cache methods, so a second request may be admitted while the first is still inside an agent.  A request
+   gives up control only inside executor.express() or assessor.express(): [Begin id r w] carries request [r] from
+   its arrival (request counter, circuit check, cache check) into the agent [w], where it stays suspended after the
+   agent has been counted and has spent its energy; [End id] lets it go on to its answer at the clock value of that
+   moment (everything it records - last_failure, last_success, the cache stamp - and every decision of
+   _record_success / _record_failure is taken on the breaker AS IT IS THEN).  A [Begin] that is refused or served
+   from the cache (or whose executor raises before the assessor is reached) is a whole request.  [Seq o] is an
+   operation of the sequential language.  Pre-emption between two lines of run() outside the agents is not
+   modelled.  (Two overlapping requests for one prompt both store their result; the dict keeps the position of
+   the first insertion while [cache_store] moves the entry to the front, which only matters for the eviction
+   order among equal timestamps at the 1000-entry cap: overlapping histories are not generated that long.) *)
 From Coq Require Import ZArith List Bool.
 Import ListNotations.
 Open Scope Z_scope.
@@ -312,6 +325,125 @@ Fixpoint trace (c : cfg) (s : state) (ops : list op) : list (op * state * option
   | o :: rest => let '(s1, r) := step c s o in (o, s1, r) :: trace c s1 rest
   end.
 
+(* ---------------------------------------------------------------------- *)
+(* run() in phases, and requests that overlap                              *)
+
+(* the part of run() in front of the agents: the answer when the request is refused or served from the cache,
+   otherwise [None] and the state in which the executor is asked *)
+Definition arrive (c : cfg) (s0 : state) (r : request) : state * option result :=
+  let s := bump_requests s0 in
+  let '(b1, admitted) :=
+    if enabled c then check_circuit (timeout c) (now s) (br s) else (br s, true) in
+  let s1 := set_br s b1 in
+  if negb admitted then (s1, Some res_circuit_open)
+  else
+    match cache_probe c s1 (prompt r) with
+    | (s2, Some res) => (s2, Some (mark_cached res))
+    | (s2, None) => (s2, None)
+    end.
+
+(* the except-branch of run() *)
+Definition fail_req (c : cfg) (s : state) : state * result :=
+  (set_br s (record_failure (threshold c) (now s) (br s)), res_error).
+
+(* from the moment the assessor answers (it has been counted and has spent) *)
+Definition finish_y (c : cfg) (s4 : state) (r : request) (z : zverdict) : state * result :=
+  match yb r with
+  | Raises => fail_req c s4
+  | Returns y =>
+      let res := gate_result (glogic c) z y in
+      let s5 := set_br s4 (classify c (now s4) res (br s4)) in
+      let s6 := cache_store c s5 (prompt r) res in
+      (bump_outcome s6 (r_blocked res), res)
+  end.
+
+(* from the moment the executor answers (it has been counted, has spent and has taken its time) *)
+Definition finish_z (c : cfg) (s3 : state) (r : request) : state * result :=
+  match zb r with
+  | Raises => fail_req c s3
+  | Returns z => finish_y c (call_y c s3) r z
+  end.
+
+Inductive place := InZ | InY.     (* suspended inside executor.express() / assessor.express() *)
+Record flying := mkFly { f_id : Z; f_req : request; f_place : place }.
+
+Fixpoint fly_lookup (id : Z) (l : list flying) : option flying :=
+  match l with
+  | [] => None
+  | f :: rest => if Z.eqb id (f_id f) then Some f else fly_lookup id rest
+  end.
+Fixpoint fly_remove (id : Z) (l : list flying) : list flying :=
+  match l with
+  | [] => []
+  | f :: rest => if Z.eqb id (f_id f) then rest else f :: fly_remove id rest
+  end.
+
+(* arrival of a request that is to be suspended in agent [w]: [Some] answer when it never gets there *)
+Definition begin_req (c : cfg) (s0 : state) (r : request) (w : place) : state * option result :=
+  match arrive c s0 r with
+  | (s1, Some res) => (s1, Some res)
+  | (s2, None) =>
+      match w with
+      | InZ => (call_z c s2 0, None)
+      | InY =>
+          let s3 := call_z c s2 (dur r) in
+          match zb r with
+          | Raises => let '(s', res) := fail_req c s3 in (s', Some res)
+          | Returns _ => (call_y c s3, None)
+          end
+      end
+  end.
+
+(* the suspended request goes on *)
+Definition end_req (c : cfg) (s : state) (f : flying) : state * result :=
+  match f_place f with
+  | InZ => finish_z c (advance s (dur (f_req f))) (f_req f)
+  | InY =>
+      match zb (f_req f) with
+      | Returns z => finish_y c s (f_req f) z
+      | Raises => fail_req c s          (* not reachable: [begin_req] never parks such a request in the assessor *)
+      end
+  end.
+
+Inductive cop := Seq (o : op) | Begin (id : Z) (r : request) (w : place) | End (id : Z).
+
+Definition cstate := (state * list flying)%type.
+
+(* an answer is tagged [true] when the request ran from its arrival to its answer within the operation
+   ([Run], a [Begin] that returned at once), [false] when it had been suspended ([End]) *)
+Definition cstep (c : cfg) (cs : cstate) (o : cop) : cstate * option (bool * result) :=
+  let '(s, fl) := cs in
+  match o with
+  | Seq o' =>
+      let '(s', r) := step c s o' in
+      ((s', fl), match r with Some x => Some (true, x) | None => None end)
+  | Begin id r w =>
+      match begin_req c s r w with
+      | (s', Some res) => ((s', fl), Some (true, res))
+      | (s', None) => ((s', mkFly id r w :: fl), None)
+      end
+  | End id =>
+      match fly_lookup id fl with
+      | Some f => let '(s', res) := end_req c s f in ((s', fly_remove id fl), Some (false, res))
+      | None => ((s, fl), None)
+      end
+  end.
+
+Fixpoint crun (c : cfg) (cs : cstate) (ops : list cop) : cstate * list (bool * result) :=
+  match ops with
+  | [] => (cs, [])
+  | o :: rest =>
+      let '(cs1, r) := cstep c cs o in
+      let '(cs2, rs) := crun c cs1 rest in
+      (cs2, match r with Some x => x :: rs | None => rs end)
+  end.
+
+Fixpoint ctrace (c : cfg) (cs : cstate) (ops : list cop) : list (cop * cstate * option (bool * result)) :=
+  match ops with
+  | [] => []
+  | o :: rest => let '(cs1, r) := cstep c cs o in (o, cs1, r) :: ctrace c cs1 rest
+  end.
+
 Definition init_breaker := mkB Closed 0 0 None None 0 0.
 Definition init : state := mkS init_breaker 0 [] 0 0 0 0 0 0.
 
@@ -352,7 +484,19 @@ Definition obs_row (cb : bool) (x : op * state * option result) : list Z :=
       Z.of_nat (length (cache s)); now s;
       if cb then total_blocked s else 0; if cb then total_permitted s else 0].
 
-Definition case := (cfg * bool * list op)%type.
+Definition cop_code (o : cop) : Z :=
+  match o with Seq o' => op_code o' | Begin _ _ _ => 5 | End _ => 6 end.
+
+(* the row of an operation of an overlapping history: the same columns; the code of the operation is
+   5 for a [Begin] (no answer columns when the request is now suspended), 6 for an [End] *)
+Definition obs_crow (cb : bool) (x : cop * cstate * option (bool * result)) : list Z :=
+  let '(o, cs, r) := x in
+  match obs_row cb (Tick 0, fst cs, match r with Some (_, res) => Some res | None => None end) with
+  | _ :: row => cop_code o :: row
+  | [] => []
+  end.
+
+Definition case := (cfg * bool * list cop)%type.
 
 Definition run_case (c : case) : list (list Z) :=
-  let '(cf, cb, ops) := c in map (obs_row cb) (trace cf init ops).
+  let '(cf, cb, ops) := c in map (obs_crow cb) (ctrace cf (init, []) ops).
